@@ -48,7 +48,7 @@ TEXT = {"set": "Def One", "soft": " def  ONE ", "hard": "other text"}
 TEXT_STATES = ["set-unset", "unset-set", "equal", "soft", "hard"]
 UNC = [None, 0, 0.5, 0.7]
 DTYPE_KINDS = ["convertible", "convertible-rev", "unconvertible", "src-float", "equal-values", "src-empty",
-               "dest-empty", "src-untyped-text"]
+               "dest-empty", "src-untyped-text", "src-multiline-string"]
 
 
 def variations():
@@ -133,6 +133,10 @@ def apply_var(dest, src, var):
             s.update(values=[])
         elif kind == "dest-empty":
             d.update(values=[])
+        elif kind == "src-multiline-string":
+            # same dtype on both sides, but the source value holds a line break
+            d.update(dtype="string", values=["x"])
+            s.update(dtype="string", values=["a\nb", "c"])
         elif kind == "src-untyped-text":
             d.update(dtype="text", values=["a\nb"])
             s.update(dtype="string", values=["c"])
